@@ -419,23 +419,22 @@ func RunSeeder(c *sim.Ctx) {
 				if rq.size > uint64(maxSize) {
 					rq.size = uint64(maxSize)
 				}
-				err, peerErr := seeder.NotifyRequestReceived(mkPeer(pi), basestream.Request{
-					Session: basestream.Session{ID: uint32(sid), Start: loc(st), Stop: loc(sp)}, MaxPayloadNum: uint32(num), MaxPayloadSize: size, MaxChunks: uint32(chunks)})
-				if err != nil {
-					rec.violation("seeder-error", "seeder-error", "NotifyRequestReceived: %v", err)
-					return
+				notify := func() (error, error) {
+					return seeder.NotifyRequestReceived(mkPeer(pi), basestream.Request{
+						Session: basestream.Session{ID: uint32(sid), Start: loc(st), Stop: loc(sp)}, MaxPayloadNum: uint32(num), MaxPayloadSize: size, MaxChunks: uint32(chunks)})
 				}
 				if chunks > maxChunks {
 					probes["too_many_chunks"]++
-					if peerErr == nil {
+					err, peerErr := notify()
+					if err != nil {
+						rec.violation("seeder-error", "seeder-error", "NotifyRequestReceived: %v", err)
+					} else if peerErr == nil {
 						rec.violation("seeder-limit", "seeder-limit/too-many-chunks-accepted", "request for %d chunks accepted, the configured maximum is %d", chunks, maxChunks)
 					}
 					return
 				}
-				if peerErr != nil {
-					rec.violation("seeder-error", "seeder-error/peer", "request refused: %v", peerErr)
-					return
-				}
+				// the model takes the request before the call: the seeder's reader and senders may run (and answer)
+				// while NotifyRequestReceived is still handing the request over
 				var sm *sessModel
 				for _, l := range pm.live {
 					if l.sid == sid {
@@ -481,6 +480,15 @@ func RunSeeder(c *sim.Ctx) {
 				}
 				// a request that must not be served (changed start, session already done) is not queued: a
 				// response without an outstanding request is reported as such
+				err, peerErr := notify()
+				if err != nil {
+					rec.violation("seeder-error", "seeder-error", "NotifyRequestReceived: %v", err)
+					return
+				}
+				if peerErr != nil {
+					rec.violation("seeder-error", "seeder-error/peer", "request refused: %v", peerErr)
+					return
+				}
 			}
 		}
 		drive(plan, fire, func(time.Duration) { checkPending("at quiescence") })
